@@ -510,15 +510,27 @@ func (x *Exec) mergeStates(sts []*State) *State {
 			out.heap[k] = x.name("h_"+shortKey(k), acc)
 		}
 	}
-	// a snapshot survives a merge only if every incoming path took the same one
-	for k, v := range sts[0].snaps {
+	// a snapshot survives a merge if every incoming path that has one took the same one (paths
+	// on which the callee was never called have none: clauses using after(F, ..) guard with called(F))
+	snapKeys := map[string]bool{}
+	for _, s := range sts {
+		for k := range s.snaps {
+			snapKeys[k] = true
+		}
+	}
+	for k := range snapKeys {
+		var v *State
 		same := true
-		for _, s := range sts[1:] {
-			if s.snaps[k] != v {
-				same = false
+		for _, s := range sts {
+			if sv, ok := s.snaps[k]; ok {
+				if v == nil {
+					v = sv
+				} else if sv != v {
+					same = false
+				}
 			}
 		}
-		if same {
+		if same && v != nil {
 			if out.snaps == nil {
 				out.snaps = map[string]*State{}
 			}
